@@ -414,6 +414,86 @@ func (p *XL) Rels() map[string][]string {
 func (p *XL) Prefill() { p.Rights = []*MR{{Seq: 99}} }
 
 // ---------------------------------------------------------------------------
+// families "ref", "refpoly", "refm2m": the REFERENCED key is not the primary
+// key but the column `code`, declared through tags; ids (= seq) and codes
+// collide textually (id 1 next to code "1").
+
+type RO struct {
+	ID        uint   `gorm:"column:id;primaryKey;autoIncrement:false"`
+	Code      string `gorm:"column:code"`
+	Seq       int    `gorm:"column:seq"`
+	Tag       string `gorm:"column:tag"`
+	DeletedAt gorm.DeletedAt
+	Kids      []RK `gorm:"foreignKey:OwnerCode;references:Code"`
+	One       *RK  `gorm:"foreignKey:OwnerCode;references:Code"`
+	Notes     []RN `gorm:"polymorphic:Owner;polymorphicValue:dog;foreignKey:Code"`
+	Note1     *RN  `gorm:"polymorphic:Owner;polymorphicValue:dog;foreignKey:Code"`
+	Rights    []MR `gorm:"many2many:c11_ro_mr;foreignKey:Code;joinForeignKey:OwnerCode;references:ID;joinReferences:RightID"`
+}
+
+func (RO) TableName() string { return "c11_ro" }
+
+type RK struct {
+	Seq       int     `gorm:"column:seq;primaryKey"`
+	OwnerCode *string `gorm:"column:owner_code"`
+	Tag       string  `gorm:"column:tag"`
+	DeletedAt gorm.DeletedAt
+	Owner     *RO `gorm:"foreignKey:OwnerCode;references:Code"`
+}
+
+func (RK) TableName() string { return "c11_rk" }
+
+type RN struct {
+	Seq       int     `gorm:"column:seq;primaryKey"`
+	OwnerID   *string `gorm:"column:owner_id"`
+	OwnerType *string `gorm:"column:owner_type"`
+	Tag       string  `gorm:"column:tag"`
+	DeletedAt gorm.DeletedAt
+}
+
+func (RN) TableName() string { return "c11_rn" }
+
+func (p *RO) LSeq() int   { return p.Seq }
+func (p *RO) RID() string { return itoa(p.Seq) }
+func (k *RK) LSeq() int   { return k.Seq }
+func (k *RK) RID() string { return itoa(k.Seq) }
+func (k *RN) RID() string { return itoa(k.Seq) }
+func (p *RO) Rels() map[string][]string {
+	m := map[string][]string{}
+	for i := range p.Kids {
+		m["Kids"] = append(m["Kids"], itoa(p.Kids[i].Seq))
+	}
+	if p.One != nil {
+		m["One"] = []string{itoa(p.One.Seq)}
+	}
+	for i := range p.Notes {
+		m["Notes"] = append(m["Notes"], itoa(p.Notes[i].Seq))
+	}
+	if p.Note1 != nil {
+		m["Note1"] = []string{itoa(p.Note1.Seq)}
+	}
+	for i := range p.Rights {
+		m["Rights"] = append(m["Rights"], itoa(p.Rights[i].Seq))
+	}
+	return sorted(m)
+}
+func (p *RO) Prefill() {
+	p.Kids = []RK{{Seq: 99}}
+	p.One = &RK{Seq: 99}
+	p.Notes = []RN{{Seq: 99}}
+	p.Note1 = &RN{Seq: 99}
+	p.Rights = []MR{{Seq: 99}}
+}
+func (k *RK) Rels() map[string][]string {
+	m := map[string][]string{}
+	if k.Owner != nil {
+		m["Owner"] = []string{itoa(k.Owner.Seq)}
+	}
+	return m
+}
+func (k *RK) Prefill() { k.Owner = &RO{Seq: 99} }
+
+// ---------------------------------------------------------------------------
 // family "nest": grandparent -> kids -> toys.
 
 type GP struct {
